@@ -142,7 +142,7 @@ def run_lines(ctx):
         fails.append(Failure("drv-lines:%s" % ("pan" if r["pan"] else "lines" if not info["linesOk"] else "back"),
                              "midicatdrv out port wrote %s for messages %s; in port delivered %s; %s" %
                              ([bytes(x).decode("latin1")[:60] for x in r["lines"][:3]], [x[:12] for x in r["msgs"][:3]], [x[:12] for x in r["got"][:3]], r["pan"]),
-                             {"family": "drv-lines", "record": {"ev": "drv", "id": r["id"], "msgs": r["msgs"]}}))
+                             {"family": "drv-lines", "record": {"ev": "drv", "id": r["id"], "msgs": r["msgs"], "par": r.get("par", 0)}}))
     ctx.count(sum(len(r["msgs"]) for r in recs), [str(r["msgs"]) for r in recs if any(len(m) > 100 for m in r["msgs"])],
               [{"msgs": [m[:8] for m in r["msgs"][:2]], "lines": [bytes(x).decode("latin1")[:40] for x in r["lines"][:2]]} for r in recs[:1]])
     return fails
@@ -152,6 +152,9 @@ def confirm_lines(ctx, f):
     d = ctx.sub("mcatlre")
     i, o = os.path.join(d, "in.ndjson"), os.path.join(d, "out.ndjson")
     open(i, "w").write(json.dumps(f.payload["record"]) + "\n")
-    _run(ctx, ["lines-rerun", "-in", i, "-out", o], d)
-    recs, _ = _collect(d, o)
-    return bool(recs) and bool(ctx.validate("Trace_MidicatDrv", recs[:1], shards=1))
+    for _ in range(5 if f.payload["record"].get("par", 0) > 1 else 1):     # concurrent senders: schedule dependent
+        _run(ctx, ["lines-rerun", "-in", i, "-out", o], d)
+        recs, _ = _collect(d, o)
+        if recs and ctx.validate("Trace_MidicatDrv", recs[:1], shards=1):
+            return True
+    return False
